@@ -78,6 +78,10 @@ class ProgGen:
         for i in range(r.randint(1, 4)):
             funcs.append(self.function(f"f{i}", export=True))
         prog = {"globals": globs, "functions": funcs}
+        if r.random() < 0.3:
+            # literal initialisers on scalar globals (the history sets every global anyway)
+            prog["ginit"] = {n: (r.randint(1, 9) if t[0] == "int" else r.choice([0.5, 1.5, 2.25]))
+                             for n, t in globs if t[0] in ("int", "float") and r.random() < 0.7}
         if self.sw.get("two_module"):
             # the globals live in a library module; a scalar local of some functions takes the
             # name of a global that the function does not mention (it shadows the imported global)
